@@ -52,6 +52,8 @@ def Loc(r, f, e): return T("Loc", int(r), f, e)
 def Glob(f, *es): return T("Glob", f, tuple(es))
 def Erode(r, m): return T("Erode", int(r), m)
 def ErodeP(r, m): return T("ErodeP", int(r), m)
+def ErodeS(s, m): return T("ErodeS", int(s), m)     # punctured erosion by the abstract structure s
+def LocS(s, f, e): return T("LocS", int(s), f, e)   # reads e at p and at p + d, d in structure s
 def Select(a, m, b): return T("Select", a, m, b)
 def MConv(k, e, m): return T("MConv", k, e, m)
 def Not(m): return T("Not", m)                    # internal: eliminated when used as a selector
@@ -76,7 +78,7 @@ def is_masklike(t):
     k = t[0]
     if k == "MaskE":
         return True
-    if k in ("Erode", "ErodeP", "Not"):
+    if k in ("Erode", "ErodeP", "ErodeS", "Not"):
         return is_masklike(t[-1])
     if k == "Select" and t[3] == FalseC:
         return is_masklike(t[1]) or is_masklike(t[2])
@@ -123,8 +125,10 @@ def fold(t):
         return Const(t[1] + "(..)")
     if k == "Loc" and is_const(t[3]):
         return Const(t[2] + "(..)")
-    if k in ("Erode", "ErodeP") and is_const(t[2]):
+    if k in ("Erode", "ErodeP", "ErodeS") and is_const(t[2]):
         return Const("erode(..)")
+    if k == "LocS" and is_const(t[3]):
+        return Const(t[2] + "(..)")
     if k == "Not":
         if is_const(t[1]):
             return Const("not(..)")
@@ -436,7 +440,7 @@ class Interp:
         """shape/size/dtype of a term: image-shaped terms have the (constant) image shape; the length of a gathered
         vector depends on its selector; anything else is an opaque function of the term"""
         k = t[0]
-        if k in ("Img", "MaskE", "Pw", "Loc", "Erode", "ErodeP", "Select", "Not", "MConv"):
+        if k in ("Img", "MaskE", "Pw", "Loc", "LocS", "Erode", "ErodeP", "ErodeS", "Select", "Not", "MConv"):
             if k == "Pw" and any(x[0] in ("Gather", "Glob") for x in t[2]):
                 return Glob("shape_of", t)
             return Const(".shape")
@@ -910,8 +914,10 @@ def _lower(t):
         return Glob("crop" + t[1], lower(t[2]))
     if k == "SetSlice":
         return Glob("setslice" + t[1], lower(t[2]), lower(t[3]))
-    if k in ("Erode", "ErodeP"):
+    if k in ("Erode", "ErodeP", "ErodeS"):
         return T(k, t[1], lower(t[2]))
+    if k == "LocS":
+        return T("LocS", t[1], t[2], lower(t[3]))
     if k in ("Pw", "Glob"):
         return T(k, t[1], tuple(lower(x) for x in t[2]))
     if k == "Loc":
@@ -933,15 +939,14 @@ def lower_sel(m):
 
 
 class Emitter:
-    """Coq text of terms; sub-terms that occur repeatedly are emitted once as `Definition sh_k` (the term denoted is
-    the same tree; only the text is shared)."""
+    """Coq text of programs.  A term is a DAG; every node that has more than one parent becomes a shared definition of
+    the program (`Ref k`), except on the spine of the main term (the Select nodes reached from the root through
+    then/else branches), which the restore checker inspects."""
 
     def __init__(self):
         self.syms = {}
         self.consts = {}
-        self.memo = {}
         self.size = {}
-        self.defs = []
 
     def sym(self, name):
         return self.syms.setdefault(name, len(self.syms))
@@ -952,63 +957,87 @@ class Emitter:
     def tsize(self, t):
         r = self.size.get(t)
         if r is None:
-            k = t[0]
-            if k in ("Img", "MaskE", "FalseC", "Const"):
-                r = 1
-            elif k in ("Pw", "Glob"):
-                r = 1 + sum(self.tsize(x) for x in t[2])
-            else:
-                r = 1 + sum(self.tsize(x) for x in t[1:] if isinstance(x, tuple))
+            r = 1 + sum(self.tsize(x) for x in self.children(t))
             self.size[t] = r
         return r
 
-    def coq(self, t):
-        r = self.memo.get(t)
-        if r is not None:
-            return r
-        r = self._coq(t)
-        if self.tsize(t) > 12:
-            name = "sh_%d" % len(self.defs)
-            self.defs.append("Definition %s : expr := %s." % (name, r))
-            r = name
-        self.memo[t] = r
-        return r
-
-    def coq_param(self, t, sym):
-        """unshared text of a term whose radii equal to `sym` are printed as the variable r"""
+    @staticmethod
+    def children(t):
         k = t[0]
-        rr = lambda v: "r" if v == sym else str(v)
-        if k in ("Img", "MaskE", "FalseC"):
-            return k
-        if k == "Const":
-            return "(Const %d)" % self.const(t[1])
-        if k in ("Erode", "ErodeP"):
-            return "(%s %s %s)" % (k, rr(t[1]), self.coq_param(t[2], sym))
+        if k in ("Img", "MaskE", "FalseC", "Const"):
+            return ()
         if k in ("Pw", "Glob"):
-            return "(%s %d [%s])" % (k, self.sym(t[1]), "; ".join(self.coq_param(x, sym) for x in t[2]))
-        if k == "Loc":
-            return "(Loc %s %d %s)" % (rr(t[1]), self.sym(t[2]), self.coq_param(t[3], sym))
-        if k == "Select":
-            return "(Select %s %s %s)" % tuple(self.coq_param(x, sym) for x in t[1:])
-        raise Unsupported("emit(param) " + k)
+            return t[2]
+        return tuple(x for x in t[1:] if isinstance(x, tuple))
 
-    def _coq(self, t):
-        k = t[0]
-        if k in ("Img", "MaskE", "FalseC"):
-            return k
-        if k == "Const":
-            return "(Const %d)" % self.const(t[1])
-        if k in ("Erode", "ErodeP"):
-            return "(%s %d %s)" % (k, t[1], self.coq(t[2]))
-        if k in ("Pw", "Glob"):
-            return "(%s %d [%s])" % (k, self.sym(t[1]), "; ".join(self.coq(x) for x in t[2]))
-        if k == "Loc":
-            return "(Loc %d %d %s)" % (t[1], self.sym(t[2]), self.coq(t[3]))
-        if k == "Select":
-            return "(Select %s %s %s)" % (self.coq(t[1]), self.coq(t[2]), self.coq(t[3]))
-        if k == "MConv":
-            return "(MConv %d %s %s)" % (self.sym(t[1]), self.coq(t[2]), self.coq(t[3]))
-        raise Unsupported("emit " + k)
+    def dag_size(self, t):
+        seen = set()
+        stack = [t]
+        while stack:
+            x = stack.pop()
+            if x in seen:
+                continue
+            seen.add(x)
+            stack.extend(self.children(x))
+        return len(seen)
+
+    def prog(self, t, psym=None):
+        """Coq text `([d0; d1; ...], main)`; psym = (value, name): radii/structures equal to value print as name"""
+        import sys
+        sys.setrecursionlimit(max(sys.getrecursionlimit(), 20000))
+        parents = {}
+        seen = set()
+        stack = [t]
+        while stack:
+            x = stack.pop()
+            if x in seen:
+                continue
+            seen.add(x)
+            for c in self.children(x):
+                parents[c] = parents.get(c, 0) + 1
+                stack.append(c)
+        defs, memo = [], {}
+        num = (lambda v: psym[1] if (psym and v == psym[0]) else str(v))
+
+        def node(x, children_text):
+            k = x[0]
+            if k in ("Img", "MaskE", "FalseC"):
+                return k
+            if k == "Const":
+                return "(Const %d)" % self.const(x[1])
+            if k in ("Erode", "ErodeP", "ErodeS"):
+                return "(%s %s %s)" % (k, num(x[1]), children_text[0])
+            if k in ("Pw", "Glob"):
+                return "(%s %d [%s])" % (k, self.sym(x[1]), "; ".join(children_text))
+            if k in ("Loc", "LocS"):
+                return "(%s %s %d %s)" % (k, num(x[1]), self.sym(x[2]), children_text[0])
+            if k == "Select":
+                return "(Select %s %s %s)" % tuple(children_text)
+            if k == "MConv":
+                return "(MConv %d %s %s)" % (self.sym(x[1]), children_text[0], children_text[1])
+            raise Unsupported("emit " + k)
+
+        def emit(x):
+            r = memo.get(x)
+            if r is not None:
+                return r
+            if x[0] in ("Pw", "Glob", "Loc", "LocS", "MConv"):
+                self.sym(x[1] if x[0] in ("Pw", "Glob", "MConv") else x[2])      # symbol numbers in pre-order
+            text = node(x, [emit(c) for c in self.children(x)])
+            if parents.get(x, 0) > 1 and self.children(x):
+                defs.append(text)
+                text = "(Ref %d)" % (len(defs) - 1)
+            memo[x] = text
+            return text
+
+        def spine(x):
+            if x[0] == "Select":
+                m = emit(x[2])
+                return "(Select %s %s %s)" % (spine(x[1]), m, spine(x[3]))
+            return emit(x)
+
+        main = spine(t)
+        return "([%s],\n   %s)" % (";\n    ".join(defs), main)
 
 
 def show(t, limit=600):
@@ -1026,8 +1055,10 @@ def _show(t, budget):
         return k
     if k == "Const":
         return "Const<%s>" % t[1]
-    if k in ("Erode", "ErodeP"):
+    if k in ("Erode", "ErodeP", "ErodeS"):
         return "%s %d (%s)" % (k, t[1], _show(t[2], budget))
+    if k == "LocS":
+        return "LocS %d %s (%s)" % (t[1], t[2], _show(t[3], budget))
     if k in ("Pw", "Glob"):
         return "%s %s [%s]" % (k, t[1], "; ".join(_show(x, budget) for x in t[2]))
     if k == "Loc":
